@@ -16,6 +16,9 @@ import (
 
 var repoDir = "/repo"
 
+// deepSplit expands pure-function conjunctions into separate obligations (diagnosis aid: GVC_DEEP=1)
+var deepSplit = os.Getenv("GVC_DEEP") == "1"
+
 func loadProgram() (*Program, error) {
 	if d := os.Getenv("GVC_REPO"); d != "" {
 		repoDir = d
@@ -109,6 +112,10 @@ func run(args []string) int {
 				for _, o := range e.obls {
 					fmt.Printf("; OBL %d %s  pre=%s\n", o.ID, o.Name, o.okPre)
 				}
+				continue
+			}
+			if fc != nil && fc.Kind != "func" {
+				fmt.Printf("%s: %s (assumed contract, body not verified)\n", name, fc.Kind)
 				continue
 			}
 			r := verifyFunc(p, fn, fc, 10, nil)
